@@ -18,6 +18,7 @@ class Global:
         self.comparison = kw.get("comparison", False)
         self.group = kw.get("group")
         self.binding = kw.get("binding")
+        self.len_override = kw.get("len_override")  # name of an override used as array length
 
     def is_resource(self):
         return self.kind in ("buffer", "texture", "sampler")
@@ -38,6 +39,8 @@ class Global:
                 return "texture_storage_%s<%s, %s>" % (d, t["format"], t["access"])
         if self.kind == "sampler":
             return "sampler_comparison" if self.comparison else "sampler"
+        if self.len_override and self.ty[0] == "a":
+            return "array<%s, %s>" % (W.wgsl(self.ty[1]), self.len_override)
         return W.wgsl(self.ty)
 
     def decl(self, idx_suffix=False):
